@@ -130,6 +130,8 @@ class Memory:
         r = s.region_of(addr)
         if r is None or addr + size > r.base + max(r.size, 1):
             s.e.add_check(guard, '%s: invalid address 0x%x' % (what, addr), 'mem'); return False
+        if r.kind == 'tls' and r.tid >= 0 and r.tid != s.e.cur and s.e.cur < s.e.NT and r.tid < s.e.NT:
+            s.e.add_check(guard, 'ENGINE-LIMIT %s: access to thread-local storage of another thread (%s)' % (what, r.name), 'limit')
         if r.freed is not False:
             gg = gand(guard, r.freed)
             if gg is not False: s.e.add_check(gg, '%s: use after free of %s' % (what, r.name), 'mem')
